@@ -12,8 +12,10 @@ THEOREMS = ["Mesa.Signals." + t for t in (
     "C16_reentrant_passive_is_run", "C16_reentrant_round_registry", "C16_reentrant_called_are_subscribed",
     "C16_reentrant_untouched_called_once_per_subscription", "C16_reentrant_registry_is_call_history",
     "C16_slicex_set_rejected_iff", "C16_slicex_positions_exist", "C16_slicex_extended_set_frame",
+    "C16_slicex_extended_set_values", "C16_slicex_del_erases_selected",
     "C16_extend_signals", "C16_iadd_signals", "C16_clear_signals",
     "C16_extend_failing_source", "C16_failing_source_is_extend_of_consumed",
+    "C16_failing_source_histories", "C16_listener_replica_failing_sources",
     "C18_signals_reject_unchanged", "C18_signals_observe_reject_unchanged", "C18_signals_observe_rejects_exactly",
     "C18_signals_rejected_calls_can_be_deleted")]
 COUNTS = {"quick": 1500, "thorough": 150000}
